@@ -10,7 +10,7 @@ From Coq Require Import PrimFloat.
 Import ListNotations.
 From DD Require Import Hash.HashModel DiffIO.DiffIOModel.
 From DD Require Import Base.Value Diff.Tree Diff.DiffModel Dist.DistModel Dist.DistProofs Dist.DistDiffModel Dist.DistDiffProofs.
-From DD Require Import Dist.DistIOModel Dist.DistIOLength Dist.DistIOProofs.
+From DD Require Import Dist.DistIOModel Dist.DistIOLength Dist.DistIOProofs Dist.DistIOMutual.
 
 (** ** number / date / time distance: range *)
 
@@ -269,3 +269,22 @@ Theorem C19_pair_distance_range_rep :
     0 < n /\ n <= m.
 Proof. exact pair_distance_rep_range. Qed.
 Print Assumptions C19_pair_distance_range_rep.
+
+(* ... and when they are not (the default): the nested run IS rewritten (an item removed and an item added at one
+   path become a value change).  [mutual_ok] - removed levels at pairwise different paths, no two removed / added
+   levels with one value under one parent, removed levels without t2, added levels without t1 - is evaluated on
+   the levels of every recorded nested run (0 failures); under it the rewrite does not increase the weights *)
+Theorem C19_rewrite_does_not_increase_weights :
+  forall es, mutual_ok es = true -> W1 (mutual es) <= W1 es /\ W2 (mutual es) <= W2 es.
+Proof. exact mutual_weights. Qed.
+Print Assumptions C19_rewrite_does_not_increase_weights.
+
+Theorem C19_pair_distance_range_default :
+  forall H udiff skip excl c pairs incl cutoff x y n m,
+    ignore_private c = true -> wf x = true -> wf y = true ->
+    mutual_ok (fst (diff_io H udiff skip excl c false pairs x y [] [])) = true ->
+    tcs_ok incl (fst (diff_io H udiff skip excl c false pairs x y [] [])) = true ->
+    pair_distance H udiff skip excl c false pairs incl cutoff x y = RFrac n m ->
+    0 < n /\ n <= m.
+Proof. exact pair_distance_norep_range. Qed.
+Print Assumptions C19_pair_distance_range_default.
